@@ -57,6 +57,8 @@ def cases(tier, seed):
                 out.append({"sub": "placement", "name": name, "nc": nc, "backend": "sympy"})
     out.append({"sub": "edge"})
     out += [{"sub": "reuse", "i": i} for i in range(40 if tier == "quick" else 1500)]
+    for ns in ([10 ** 7, 2 * 10 ** 7, 10 ** 7 + 3] if tier == "quick" else [10 ** 7 - 1, 10 ** 7, 10 ** 7 + 1, 2 * 10 ** 7, 3 * 10 ** 7, 25 * 10 ** 6]):
+        out += [{"sub": "bigshots", "n_shots": ns, "i": i} for i in range(1 if tier == "quick" else 3)]
     out.append({"sub": "repo_tests", "tier": tier})
     return out
 
@@ -243,6 +245,28 @@ def run_reuse(case, ctx):
     ctx.sample({"sub": "reuse", "backend": bname, "steps": len(hist)})
 
 
+def run_bigshots(case, ctx):
+    """Shot numbers at and around the sampler's internal chunk size (10**7): the histogram must still be n_shots draws."""
+    from tangelo.linq import get_backend
+    rng, pr, s = case_rng(ctx.seed, "C01", "bigshots", case["n_shots"], case["i"])
+    n_shots = case["n_shots"]
+    n = pr.randint(1, 2)
+    gates = gen.random_gates(pr, n, pr.randint(1, 4), names=gen.ONE_Q_ROT + ["H", "CNOT", "CRY"], max_controls=1, hostile=0.0)
+    circ = gen.to_circuit(gates, n_qubits=n)
+    ref = refsim.run(gates, n)
+    probs = {refsim.bitstring(i, n): float(p) for i, p in enumerate(refsim.probabilities(ref))}
+    np.random.seed(s)
+    freqs, _ = get_backend("cirq", n_shots=n_shots).simulate(circ)
+    supp_ok = all(len(k) == n and probs.get(k, 0) > 1e-12 for k in freqs)
+    norm_ok = abs(sum(freqs.values()) - 1) < 1e-9
+    ok, info = chi2_ok(freqs, {k: v for k, v in probs.items() if v > 0}, n_shots)
+    ctx.check("cirq_sampled", supp_ok and norm_ok and ok,
+              f"n_shots={n_shots}: sampled frequencies are not n_shots draws from the exact distribution (support_ok={supp_ok} norm_ok={norm_ok} {info})",
+              lambda: {"gates": gates, "n_qubits": n, "n_shots": n_shots, "freqs": freqs, "exact": probs, "sum": sum(freqs.values())})
+    ctx.tab("big_n_shots", str(n_shots))
+    ctx.nontrivial(("bigshots", n_shots, gates))
+
+
 def sympy_gates(pr, n, ng, max_controls):
     return gen.random_gates(pr, n, ng, names=SYMPY_NAMES, max_controls=max_controls, hostile=0.3, echo=0.1)
 
@@ -406,6 +430,8 @@ def run_case(case, ctx):
         return run_repo_tests(case, ctx)
     if sub == "reuse":
         return run_reuse(case, ctx)
+    if sub == "bigshots":
+        return run_bigshots(case, ctx)
     if sub == "cirq":
         run_cirq(case, ctx)
     elif sub == "sympy":
